@@ -12,7 +12,8 @@
    Part D  two objects: an owned result and any other object of the ledger; releasing the other one
    Part E  the pipelines parse-twice, add-base + make-owner, remove-base + make-owner
    Part F  whole histories under NoFault: the store invariant
-   Part G  make-owner of a borrowed object that records blocks (the hypothesis [text_blocks m = []]) *)
+   Part G  make-owner of a borrowed object that records blocks (the hypothesis [text_blocks m = []])
+   Part H  a successful make-owner releases nothing *)
 From Coq Require Import List NArith Bool Lia Arith Permutation.
 From UP Require Import Base.Chars Model.Uri Model.Parse Model.Common Model.Normalize Model.Resolve Model.Shorten
   Model.Recompose Model.Mem Model.ParseM Model.OpsM
@@ -727,3 +728,84 @@ Proof.
   - destruct (prevent_leakage m1 d1 s1) as [m2 s2]. discriminate E.
 Qed.
 End Strip.
+
+(* ================================================================ Part H: make-owner releases nothing *)
+Section Keeps.
+Variable cs : N.
+
+Lemma own_segs_nodes rest : forall acc s segs s', own_segs cs acc rest s = (Some segs, s') ->
+  map sg_node segs = rev (map sg_node acc) ++ map sg_node rest.
+Proof.
+  induction rest as [|sg r IH]; intros acc s segs s' H; cbn [own_segs] in H.
+  - injection H as <- _. rewrite map_rev, app_nil_r. reflexivity.
+  - destruct (sg_text sg) as [|c x].
+    + rewrite (IH _ _ _ _ H). cbn [map rev]. rewrite <- app_assoc. reflexivity.
+    + destruct (alloc false (tlen (c :: x) * cs) s) as [[id|] s1]; [|discriminate H].
+      rewrite (IH _ _ _ _ H). cbn [map rev sg_node]. rewrite <- app_assoc. reflexivity.
+Qed.
+
+(* the engine keeps the address blocks and the list nodes *)
+Lemma engine_keeps m done s m' d' s' : make_owner_engine cs m done s = (true, m', d', s') ->
+  m_ip4 m' = m_ip4 m /\ m_ip6 m' = m_ip6 m /\ map sg_node (m_segs m') = map sg_node (m_segs m).
+Proof.
+  rewrite engine_unfold. unfold engine'.
+  destruct (range_owner cs done B_SCHEME (m_scheme m) s) as [[[t1 d1]|] z1]; [|intros H; discriminate H].
+  destruct (range_owner cs d1 B_USER _ z1) as [[[t2 d2]|] z2]; [|intros H; discriminate H].
+  destruct (range_owner cs d2 B_QUERY _ z2) as [[[t3 d3]|] z3]; [|intros H; discriminate H].
+  destruct (range_owner cs d3 B_FRAG _ z3) as [[[t4 d4]|] z4]; [|intros H; discriminate H].
+  set (m4 := set_m_fragment t4 (set_m_query t3 (set_m_userInfo t2 (set_m_scheme t1 m)))).
+  assert (K4 : m_ip4 m4 = m_ip4 m /\ m_ip6 m4 = m_ip6 m /\ m_segs m4 = m_segs m) by (repeat split; reflexivity).
+  clearbody m4. destruct K4 as (K4a & K4b & K4c).
+  destruct (host_step cs m4 d4 z4) as [[[m5 d5]|] z5] eqn:E5; [|intros H; discriminate H].
+  assert (K5 : m_ip4 m5 = m_ip4 m4 /\ m_ip6 m5 = m_ip6 m4 /\ m_segs m5 = m_segs m4).
+  { unfold host_step in E5. destruct (negb (N.land d4 B_HOST =? 0)%N); [injection E5 as <- _ _; repeat split; reflexivity|].
+    destruct (t_val (m_ipFuture m4)).
+    - destruct (range_owner cs d4 B_HOST (m_ipFuture m4) z4) as [[[t5 d5']|] z5']; [|discriminate E5].
+      injection E5 as <- _ _. repeat split; reflexivity.
+    - destruct (t_val (m_hostText m4)); [|injection E5 as <- _ _; repeat split; reflexivity].
+      destruct (range_owner cs d4 B_HOST (m_hostText m4) z4) as [[[t5 d5']|] z5']; [|discriminate E5].
+      injection E5 as <- _ _. repeat split; reflexivity. }
+  destruct K5 as (K5a & K5b & K5c).
+  destruct (path_step cs m5 d5 z5) as [[[m6 d6]|] z6] eqn:E6; [|intros H; discriminate H].
+  assert (K6 : m_ip4 m6 = m_ip4 m5 /\ m_ip6 m6 = m_ip6 m5 /\ map sg_node (m_segs m6) = map sg_node (m_segs m5)).
+  { unfold path_step in E6. destruct (negb (N.land d5 B_PATH =? 0)%N); [injection E6 as <- _ _; repeat split; reflexivity|].
+    destruct (own_segs cs [] (m_segs m5) z5) as [[segs|] z6'] eqn:EO; [|discriminate E6].
+    injection E6 as <- _ _. split; [reflexivity|]. split; [reflexivity|]. exact (own_segs_nodes _ _ _ _ _ EO). }
+  destruct K6 as (K6a & K6b & K6c).
+  destruct (dup_text cs (m_portText m6) z6) as [[t7|] z7]; [|intros H; discriminate H].
+  intros H. injection H as <- _ _. cbn [set_m_portText m_ip4 m_ip6 m_segs].
+  split; [congruence|]. split; congruence.
+Qed.
+
+Lemma cnt_nodes_le l x : cnt (map sg_node l) x <= cnt (seg_blocks l) x.
+Proof.
+  induction l as [|sg r IH]; [reflexivity|]. rewrite seg_blocks_cons. cbn [map].
+  rewrite (cnt_cons (sg_node sg) (map sg_node r)), (cnt_cons (sg_node sg) (blk_list (sg_blk sg) ++ seg_blocks r)), cnt_app. lia.
+Qed.
+
+Lemma make_owner_keeps_blocks m s m' s' : consistent m -> m_owner m = false ->
+  make_owner_m cs m s = (URI_SUCCESS, m', s') -> forall x, cnt (muri_blocks m) x <= cnt (muri_blocks m') x.
+Proof.
+  intros C Ho E x. unfold consistent in C. rewrite Ho in C.
+  destruct (inv_false_blk m C) as (e1 & e2 & e3 & e4 & e5 & e6 & e7 & Fs).
+  unfold make_owner_m in E. rewrite Ho in E.
+  destruct (make_owner_engine cs m 0 s) as [[[[|] m1] d1] s1] eqn:EE.
+  - injection E as <- _. rewrite bl_owner. destruct (engine_keeps m 0 s m1 d1 s1 EE) as (K4 & K6 & Kn).
+    rewrite !muri_blocks_eq, e1, e2, e3, e4, e5, e6, e7. cbn [blk_list app]. rewrite !cnt_app, K4, K6.
+    rewrite (sfld_false_blocks _ Fs), <- Kn. pose proof (cnt_nodes_le (m_segs m1) x). rewrite !cnt_nil. lia.
+  - destruct (prevent_leakage m1 d1 s1) as [m2 s2]. discriminate E.
+Qed.
+End Keeps.
+
+(* a successful make-owner of a borrowed object releases nothing, whatever the plan: every block that was live
+   is still live, and the result holds every block (nodes, address blocks) the input held *)
+Lemma make_owner_releases_nothing csize m s m' s' : wf s -> owns m s -> m_owner m = false ->
+  make_owner_m csize m s = (URI_SUCCESS, m', s') ->
+  incl (muri_blocks m) (muri_blocks m') /\ incl (live_ids s) (live_ids s').
+Proof.
+  intros W O Ho E. pose proof (make_owner_keeps_blocks csize m s m' s' (proj1 O) Ho E) as K.
+  pose proof (make_owner_m_spec csize m s W O) as Sp. rewrite E in Sp. destruct Sp as (_ & _ & _ & A & _).
+  split; intros b Hb; apply cnt_In; apply cnt_In in Hb.
+  - specialize (K b). lia.
+  - specialize (K b). specialize (A b). unfold L in *. lia.
+Qed.
